@@ -36,7 +36,9 @@ RULE = (
     "all subsets of size <= k and their complements x version in {None,1,2,3} accepted by the constructor "
     "(k=2 quick, k=3 thorough); all ordered pairs: same-version laws or mixed-version laws, operand purity "
     "after each of 7 operators; all triples over a core (all subsets of a 5-feature sub-universe x versions) "
-    "for transitivity and least-upper/greatest-lower bound; non-trivial pair = a<=b or b<=a holds with a!=b "
+    "for transitivity and least-upper/greatest-lower bound; family hist: all histories of <= d operations "
+    "(set_/unset_ of 5 features, hash, <=, ==; d=3 quick, 4 thorough) on 8 start kinds, each state compared with "
+    "the freshly constructed kind of the same feature set; non-trivial pair = a<=b or b<=a holds with a!=b "
     "as feature sets, or the pair involves a deprecated feature or two versions"
 )
 ASSUMPTIONS = [
@@ -133,7 +135,112 @@ def shards(tier, seed):
     nc = len(core_kinds())
     cstep = max(2, nc // 32)
     out += [{"level": 1, "fam": "triples", "lo": lo, "hi": min(nc, lo + cstep)} for lo in range(0, nc, cstep)]
+    out += [{"level": 0, "fam": "hist", "start": i} for i in range(len(hist_starts()))]
     return out
+
+
+# ---------------------------------------------------------------------------------------------
+# family hist: kinds reached through the set_<group> / unset_<group> mutators, with observers
+# (hash, ==, <=) interleaved.  After every step the kind must be indistinguishable (==, hash, <= both
+# ways, features) from a kind freshly CONSTRUCTED with the same feature set and version argument.
+HIST_FEATURES = ["ACTIONS_COST", "CONTINUOUS_TIME", "NUMERIC_FLUENTS", "INT_FLUENTS", "PROCESSES"]
+HIST_OPS = [("hash",), ("le",), ("eq",)] + [("set", f) for f in HIST_FEATURES] + [("unset", f) for f in HIST_FEATURES]
+
+
+def hist_starts():
+    return [((), v) for v in VERSIONS] + [(("ACTIONS_COST", "NUMERIC_FLUENTS"), v) for v in VERSIONS]
+
+
+def hist_depth(tier):
+    return 3 if tier == "quick" else 4
+
+
+def _group(f):
+    from unified_planning.model.problem_kind import FEATURES
+
+    return next(g for g, l in FEATURES.items() if f in l).lower()
+
+
+def hist_run(start, hist):
+    """replay `hist` on a fresh kind -> (kind, expected feature set) or None when a mutator refuses
+    (a feature that the kind's version does not have yet)."""
+    k = mk(start)
+    exp = set(start[0])
+    other = mk(start)
+    for op in hist:
+        if op[0] == "hash":
+            hash(k)
+        elif op[0] == "le":
+            k <= other
+        elif op[0] == "eq":
+            k == other
+        elif op[0] == "set":
+            if not constructible((op[1],), start[1]):
+                return None
+            getattr(k, "set_" + _group(op[1]))(op[1])
+            exp.add(op[1])
+        else:
+            getattr(k, "unset_" + _group(op[1]))(op[1])
+            exp.discard(op[1])
+    return k, exp
+
+
+def hist_judge(start, hist):
+    r = hist_run(start, hist)
+    if r is None:
+        return None
+    k, exp = r
+    fresh = ProblemKind(sorted(exp), version=start[1])
+    out = []
+    if set(k.features) != set(fresh.features):
+        out.append(("features", "features %s, freshly constructed %s" % (sorted(k.features), sorted(fresh.features))))
+    if not (k == fresh and fresh == k):
+        out.append(("eq", "not == to the freshly constructed kind with the same features %s" % sorted(exp)))
+    elif hash(k) != hash(fresh):
+        out.append(("hash", "== to the freshly constructed kind %s but hash %s != %s" % (lab1((tuple(sorted(exp)), start[1])), hash(k), hash(fresh))))
+    if not (k <= fresh and fresh <= k):
+        out.append(("le", "not <= both ways with the freshly constructed kind with the same features %s" % sorted(exp)))
+    return out
+
+
+def _subseq(a, b):
+    it = iter(b)
+    return all(x in it for x in a)
+
+
+def check_hist(start, tier, acc, only=None):
+    depth = hist_depth(tier)
+    frontier = [()]
+    reported = set()
+    for d in range(1, depth + 1):
+        nxt = []
+        for h in frontier:
+            for op in HIST_OPS:
+                hist = h + (op,)
+                if only is not None and hist != only[: len(hist)]:
+                    continue
+                res = hist_judge(start, hist)
+                if res is None:
+                    acc.count("hist_mutator_refused")
+                    continue
+                acc.count("evaluations")
+                acc.count("histories")
+                if any(o[0] == "unset" for o in hist) and any(o[0] in ("hash", "le", "eq") for o in hist):
+                    acc.count("nontrivial")
+                nxt.append(hist)
+                for sub, what in res:
+                    shape = ";".join(o[0] for o in hist)
+                    toks = shape.split(";")
+                    if any(s2 == sub and _subseq(sh2, toks) for s2, sh2 in reported):
+                        acc.c["violations_subsumed"] += 1
+                        continue
+                    reported.add((sub, tuple(toks)))
+                    acc.violation(
+                        "hist:%s|%s" % (sub, shape),
+                        "after %s on %s: %s" % (" ; ".join("%s(%s)" % (o[0], o[1]) if len(o) > 1 else o[0] for o in hist), lab1(start), what),
+                        {"hist_start": [list(start[0]), start[1]], "hist": [list(o) for o in hist], "tier": tier},
+                    )
+        frontier = nxt
 
 
 # ---------------------------------------------------------------------------------------------
@@ -316,6 +423,10 @@ def run_shard(shard, tier, seed):
     acc = Acc()
     mv = minviol.MinViol(acc)
     J = Judge(acc, mv)
+    if shard["fam"] == "hist":
+        check_hist(hist_starts()[shard["start"]], tier, acc)
+        acc.sample({"hist_start": lab1(hist_starts()[shard["start"]])})
+        return acc
     if shard["fam"] == "pairs":
         ks = kinds(tier)
         for i in range(shard["lo"], shard["hi"]):
@@ -336,6 +447,12 @@ def finalize(acc, tier):
 
 def replay(case):
     acc = Acc()
+    if "hist" in case:
+        start = (tuple(case["hist_start"][0]), case["hist_start"][1])
+        hist = tuple(tuple(o) for o in case["hist"])
+        res = hist_judge(start, hist) or []
+        shape = ";".join(o[0] for o in hist)
+        return [("hist:%s|%s" % (sub, shape), what) for sub, what in res]
     mv = minviol.MinViol(acc)
     J = Judge(acc, mv)
     specs = [(tuple(s[0]), s[1]) for s in case["specs"]]
